@@ -331,7 +331,11 @@ class Engine:
         s.add(*conds)
         t0 = time.time()
         r = s.check()
-        self.stats['solver_s'] += time.time() - t0
+        dt = time.time() - t0
+        self.stats['solver_s'] += dt
+        if dt * 1000 > 0.25 * timeout_ms:
+            # robustness indicator (evidence): verdicts that needed more than a quarter of their time budget
+            self.stats['slow_queries'] = self.stats.get('slow_queries', 0) + 1
         return r, s
 
     def feasible(self, cond):
